@@ -18,4 +18,6 @@ pub open spec fn built(sink: Seq<u8>, base: Seq<u8>, len: nat, entries: Seq<Entr
     // C12 / machine arithmetic of the readers: every node but a keyless root is live; outputs are non-negative; the shared empty
     // final node is never written; a file whose values are all 0 carries no outputs; the values are u64s
     &&& gok_but(bgraph(body), root, false) && (zvals(entries) ==> gok_but(bgraph(body), root, true)) && vals_fit(entries)
+    // C12, trie bound: no more nodes than the prefix trie of the keys has (its root and one node per distinct non-empty prefix)
+    &&& bgraph(body).dom().len() <= 1 + tsz(entries)
 }
